@@ -225,19 +225,26 @@ int _factor_lehman_method(integer_class &rop, const integer_class &n)
         k = 1;
 
         while (k <= u_bound) {
+            // a runs over ceil(sqrt(4kn)) .. floor(sqrt(4kn) + n^(1/6)/(4
+            // sqrt(k))); the integer roots round down, so the upper end is
+            // rounded up
             a = mp_sqrt(4 * k * n);
             mp_root(b, n, 6);
             mp_root(l, k, 2);
-            b = b / (4 * l);
+            b = (b + 1) / (4 * l) + 1;
             b = b + a;
+            if (a * a < 4 * k * n)
+                a = a + 1;
 
             while (a <= b) {
                 l = a * a - 4 * k * n;
                 if (mp_perfect_square_p(l)) {
-                    b = a + mp_sqrt(l);
-                    mp_gcd(rop, n, b);
-                    ret_val = 1;
-                    break;
+                    integer_class c = a + mp_sqrt(l);
+                    mp_gcd(rop, n, c);
+                    if (rop > 1 and rop < n) {
+                        ret_val = 1;
+                        break;
+                    }
                 }
                 a = a + 1;
             }
